@@ -84,7 +84,7 @@ fn run_fsx(prop: &'static str, tier: Tier, level: &'static str) -> i32 {
         let cfg = faults::cfg_c04();
         let thorough = tier == Tier::Thorough;
         let n = env_cases(0);
-        let cases = if n > 0 { n / 8 + 1 } else { tier.pick(1_500, 60_000) };
+        let cases = if n > 0 { n / 8 + 1 } else { tier.pick(1_500, 20_000) };
         let o = runner::run_parallel("C04-faults", seed, cases, || fsx::strategy(&cfg), |c: &Case, a| faults::run_case_c04(&cfg, c, a, false, thorough));
         out.wall_s += o.wall_s;
         out.acc.merge(o.acc);
